@@ -4,7 +4,7 @@ import sockgen as G
 
 RULE = ("family slot: QObjectHandler as the server's root handler (real ServerPrivate::process wiring over SimTcp); registries <= 5 names "
         "(prefix pairs, empty name, re-registration) through the four registration forms plus non-existent / wrong-signature old-style "
-        "slots; whole-body flag; request paths; bodies 0..12 bytes (multi-KiB in thorough); peer half-close / reset before the body is complete; body with head, split, byte-by-byte, all "
+        "slots; whole-body flag; request paths; bodies 0..12 bytes (multi-KiB in thorough); histories of 2-5 requests through ONE handler (family slotm); peer half-close / reset before the body is complete; body with head, split, byte-by-byte, all "
         "partitions of short bodies; the slot logs bytesAvailable() when invoked; non-trivial = distinct case")
 ASSUMPTIONS = ["request targets are in the C01 class"]
 TRUSTED = ["SimTcp stands in for TCP; the receiver object's slots only log"]
@@ -55,3 +55,17 @@ def cases(tier, seed, ctx=None):
     for parts in all_partitions(head[-5:] + b"body"):
         ops = [G.Construct, G.Feed(head[:-5])] + [G.Feed(p) for p in parts] + [G.Turn]
         yield ("slot", [regs, ops, [ver, []], [15, b"echo", 4, len(head)]], "all-partitions")
+    # several requests through ONE handler: different names, bodies and segmentations one after the other
+    for _ in range(60 if tier == "quick" else 800):
+        regs = []
+        for _ in range(rng.range(1, 5)):
+            regs.append([rng.choice(NAMES), rng.choice([0, 0, 0, 1, 2]), rng.range(0, 5), 1 if rng.chance(2, 3) else 0, rng.range(0, 3)])
+        conns, metas = [], []
+        for _ in range(rng.range(2, 5)):
+            name = rng.choice(NAMES + [r[0] for r in regs] * 2)
+            body = rng.bytes(rng.choice([0, 1, 3, 12]))
+            head = b"POST /" + name + b" HTTP/1.1\r\n" + (b"Content-Length: %d\r\n" % len(body)) + b"\r\n"
+            segs = rng.partition(head + body) if rng.chance(1, 2) else [head] + ([body] if body else [])
+            conns.append([G.Construct] + [G.Feed(s) for s in segs] + [G.Turn])
+            metas.append([15, name, len(body), len(head)])
+        yield ("slotm", [regs, conns, [ver, []], metas], "one-handler-history")
